@@ -202,7 +202,7 @@ Proof.
   unfold epoch_visit. simpl. intros H.
   destruct (negb (hash_len addr)).
   { injection H as <- <-. exists []. rewrite app_nil_r. split; [reflexivity|apply trel_refl]. }
-  destruct (until (get_acc m addr) =? 0).
+  destruct (negb (is_lock (get_acc m addr))).
   { injection H as <- <-. exists []. rewrite app_nil_r. split; [reflexivity|apply trel_refl]. }
   destruct (e >=? until (get_acc m addr)).
   2:{ injection H as <- <-. exists []. rewrite app_nil_r. split; [reflexivity|apply trel_refl]. }
@@ -250,7 +250,7 @@ Proof.
     apply IH in H. rewrite H. clear H IH.
     unfold epoch_visit in E1. simpl in E1.
     destruct (negb (hash_len x)); [injection E1 as <- <-; reflexivity|].
-    destruct (until (get_acc m x) =? 0); [injection E1 as <- <-; reflexivity|].
+    destruct (negb (is_lock (get_acc m x))); [injection E1 as <- <-; reflexivity|].
     destruct (e >=? until (get_acc m x)); [|injection E1 as <- <-; reflexivity].
     destruct (transfer c m x (parent (get_acc m x)) (bal (get_acc m x)) true
                 (unlock_details e) false false) as [[[m2 r2] ns2]|] eqn:Et; simpl in E1; [|discriminate].
